@@ -157,14 +157,14 @@ theorem matchPath_spelling_invariant (l : List Bytes) (p e p' e' : Bytes)
     (hl : plainPatterns l = true) (hc : canonPath p = canonPath p') :
     pathCase l p e = pathCase l p' e' := by
   rw [pathCase_eq_any, pathCase_eq_any]
-  apply List.any_congr_left'
+  apply any_congr_mem
   intro pat hpat
   unfold plainPatterns at hl
   have := List.all_eq_true.mp hl pat hpat
   simp only [Bool.and_eq_true, Bool.not_eq_eq_eq_not, Bool.not_true] at this
   have h1 : (lower pat).contains cPct = false := by rw [contains_lower _ nl_pct]; exact this.1
   have h2 : containsSub (lower pat) [cSlash, cSlash] = false := by
-    rw [containsSub_lower _ _ (by intro c hc; simp at hc; rcases hc with hc | hc <;> subst hc <;> exact nl_slash)]
+    rw [containsSub_lower _ _ (by intro c hm; simp only [List.mem_cons, List.not_mem_nil, or_false, or_self] at hm; subst hm; exact nl_slash)]
     exact this.2
   unfold canonPath at hc
   unfold patMatches
@@ -177,7 +177,7 @@ theorem matchPath_keepslashes_invariant (l : List Bytes) (p e p' e' : Bytes)
     (hc : canonPath p = canonPath p') (hk : canonPathKeepSlashes p = canonPathKeepSlashes p') :
     pathCase l p e = pathCase l p' e' := by
   rw [pathCase_eq_any, pathCase_eq_any]
-  apply List.any_congr_left'
+  apply any_congr_mem
   intro pat hpat
   unfold unescapedPatterns at hl
   have := List.all_eq_true.mp hl pat hpat
